@@ -137,7 +137,7 @@ async function main() {
     let r = await job({ in: inp, out, ddiast: 'absent' });
     ok(sameRun(r.runs[0]) && J(r.runs[0].out.ddiast) === J({ exists: true, keys: ['plusOperator', 'trim'] }) && r.runs[0].out.hooks.length === 0, 'prologue installs pass-through hooks (ddiast absent)', J(r.runs[0].out));
     r = await job({ in: inp, out });
-    ok(sameRun(r.runs[0]) && r.runs[0].out.hooks.map((h) => h.name).join() === 'trim,plusOperator' && r.runs[0].out.ddiast === undefined, 'prologue is inert when _ddiast is predefined', J(r.runs[0].out.hooks));
+    ok(sameRun(r.runs[0]) && r.runs[0].out.hooks.map((h) => h.name).join() === 'trim,plusOperator' && r.runs[0].out.ddiast.preserved === true, 'prologue is inert when _ddiast is predefined', J(r.runs[0].out.hooks));
     r = await job({ in: inp, out: fn('return _ddiast.nope(a.trim() + b);') });
     ok(r.runs[0].out.hooks[0].configured === false, 'unconfigured hook names are flagged');
   }
